@@ -80,7 +80,7 @@ impl Module for M {
         }
     }
     fn at_sim_start(&mut self, stage: usize) {
-        if self.ending >= 3 {
+        if self.ending == 3 || self.ending == 4 {
             if stage == 0 {
                 self.inc += 1;
             }
@@ -111,7 +111,13 @@ impl Module for M {
     }
     fn handle_message(&mut self, m: Message) {
         self.log.lock().unwrap().push(format!("H:msg{}:id{}", m.header().kind, m.header().id));
-        if at_one_second() {
+        if at_one_second() && self.ending == 5 {
+            // a later event first, then a long burst for this instant
+            schedule_in(Message::default().kind(77), Duration::from_secs(5));
+            for k in 100..140 {
+                send(Message::default().kind(k), "out");
+            }
+        } else if at_one_second() {
             send(Message::default().kind(40), "out");
             send(Message::default().kind(41), "out");
         }
@@ -227,8 +233,31 @@ fn run_case(c: &Case) -> Result<u64, String> {
                 break;
             }
         }
-        if !got.iter().any(|e| e == "H:start0") || (c.ending == 4 && got.iter().filter(|e| *e == "H:start1").count() != 1) {
+        if c.ending != 5 && (!got.iter().any(|e| e == "H:start0") || (c.ending == 4 && got.iter().filter(|e| *e == "H:start1").count() != 1)) {
             return Err(format!("start-up variant {}: unexpected start stages in {got:?}", c.ending));
+        }
+        if c.ending == 5 {
+            // what reaches the sink, in program order: event_start sends in stack order, the
+            // handler's burst (unless the message was consumed), event_end sends in reverse order
+            let consumed = all.contains(&Kind::Consume1);
+            let mut exp_r: Vec<String> = vec![];
+            for (i, k) in all.iter().enumerate() {
+                if *k == Kind::SendOnStart {
+                    exp_r.push(format!("R:{}", 50 + i));
+                }
+            }
+            if !consumed {
+                exp_r.extend((100..140).map(|k| format!("R:{k}")));
+            }
+            for (i, k) in all.iter().enumerate().rev() {
+                if *k == Kind::SendOnEnd {
+                    exp_r.push(format!("R:{}", 60 + i));
+                }
+            }
+            let got_r: Vec<String> = got.iter().filter(|e| e.starts_with("R:")).cloned().collect();
+            if got_r != exp_r {
+                return Err(format!("stack {all:?}: a handler that arms a later self message and then sends 40 messages: the sink received {got_r:?}, program order is {exp_r:?}"));
+            }
         }
         return Ok(vcheck::fp(&(brackets, handlers, c.ending)));
     }
@@ -321,7 +350,7 @@ impl Property for C14 {
     fn rule(&self, tier: Tier) -> String {
         format!(
             "every global stack of 0..={} elements x every per-module stack of 0..={} elements (Module::stack appending to the global stack element by element or as one multi-element stack, or replacing it) over {{pass, modify id, consume kind 1, consume kind 2, send on event_start, send on event_end}}; \
-             the module sees a start stage, message kind 1 (during which elements and the handler send to a sink), message kind 2, a timer wake-up and tear-down (normal, with a joined task that never finished, with at_sim_end returning an error: the tear-down event is bracketed all the same); plus two start-up variants (three stages, the first requests a shutdown; two stages, the first requests a restart): whatever is delivered or skipped, the call log consists of complete, non-interleaved brackets; \
+             the module sees a start stage, message kind 1 (during which elements and the handler send to a sink), message kind 2, a timer wake-up and tear-down (normal, with a joined task that never finished, with at_sim_end returning an error: the tear-down event is bracketed all the same); plus two start-up variants (three stages, the first requests a shutdown; two stages, the first requests a restart): whatever is delivered or skipped, the call log consists of complete, non-interleaved brackets; plus a variant whose handler arms a later self message and then emits 40 messages in one event (elements emitting on event_start / event_end around it): the sink receives everything in program order; \
              oracle: expected call log computed directly (event_start in stack order interleaved with incoming until consumed, handler iff not consumed, event_end in reverse order, brackets never interleave, emitted messages reach the sink in program order); \
              non-trivial = stack with at least 2 elements",
             tier.pick(3, 4),
@@ -332,14 +361,14 @@ impl Property for C14 {
         vec!["processing elements that panic, and stacks changed at run time, are outside the alphabet".into()]
     }
     fn required_features(&self, _tier: Tier) -> Vec<&'static str> {
-        vec!["early_element_consumes", "element_sends", "global_and_local_parts", "module_replaces_stack", "empty_stack", "multi_element_stack_appended_to_global", "tear_down_ending_in_an_error", "module_turns_inert_between_start_stages"]
+        vec!["early_element_consumes", "element_sends", "global_and_local_parts", "module_replaces_stack", "empty_stack", "multi_element_stack_appended_to_global", "tear_down_ending_in_an_error", "module_turns_inert_between_start_stages", "large_emission_in_one_event"]
     }
     fn explore(&self, ctx: &mut Ctx) {
         let gs = stacks(ctx.tier.pick(3, 4));
         let ls = stacks(ctx.tier.pick(2, 3));
         for g in &gs {
             for l in &ls {
-                for (replace, bulk, ending) in [(false, false, 0u8), (true, false, 0), (false, true, 0), (false, false, 1), (false, false, 2), (false, false, 3), (false, false, 4)] {
+                for (replace, bulk, ending) in [(false, false, 0u8), (true, false, 0), (false, true, 0), (false, false, 1), (false, false, 2), (false, false, 3), (false, false, 4), (false, false, 5)] {
                     if replace && g.len() > 1 {
                         continue;
                     }
@@ -353,8 +382,11 @@ impl Property for C14 {
                     if ending == 1 || ending == 2 {
                         ctx.hit("tear_down_ending_in_an_error");
                     }
-                    if ending >= 3 {
+                    if ending == 3 || ending == 4 {
                         ctx.hit("module_turns_inert_between_start_stages");
+                    }
+                    if ending == 5 {
+                        ctx.hit("large_emission_in_one_event");
                     }
                     ctx.begin(|| case_json(&c));
                     ctx.out.evaluations += 1;
